@@ -56,6 +56,7 @@ structure EntryM (H : Home) (tw : Ticket → Bool) (N : Int) (r : UOp) (X Y : Do
   back : absNode X = aexec3 H (absNode Y) r
   skel : ∀ t, skel X t = skel Y t
   idb : idBound3 r N
+  pb : r.par.lamport ≤ N
 
 def ChainM (H : Home) (tw : Ticket → Bool) (N : Int) : List UOp → Doc → List Doc → Prop
   | [], _, _ => True
@@ -69,7 +70,6 @@ structure Inv3 (H : Home) (N : Int) (ρ : Ticket → Ticket) (g : Hist) (ru rr :
   pl : PlainArrs g.doc g.lamport
   hN : N ≤ g.lamport
   hN0 : 0 ≤ N
-  twb : ∀ t, g.tw t = true → t.lamport ≤ N
   wfc : WF H cur
   bdc : Bounded cur N
   plc : PlainArrs cur N
@@ -82,8 +82,8 @@ structure Inv3 (H : Home) (N : Int) (ρ : Ticket → Ticket) (g : Hist) (ru rr :
   rarr : ∀ t, t.lamport ≤ N → ρ t ≠ t → ArrHomed H cur t
   hundo : ∃ rest, g.undo = stackOf ρ ru ++ rest
   hredo : ∃ rest, g.redo = stackOf ρ rr ++ rest
-  chU : ChainM H g.tw N ru cur past
-  chR : ChainM H g.tw N rr cur future
+  chU : ChainM H noTw N ru cur past
+  chR : ChainM H noTw N rr cur future
   uniqU : (addIds ru).Nodup
   uniqR : (addIds rr).Nodup
   uniqD : ∀ a ∈ addIds ru, ∀ b ∈ addIds rr, a ≠ b
@@ -109,7 +109,8 @@ theorem Inv3.fixed {H : Home} {N : Int} {ρ : Ticket → Ticket} {g : Hist} {ru 
 
 theorem EntryM.mono {H : Home} {tw : Ticket → Bool} {N N' : Int} {r : UOp} {X Y : Doc} (e : EntryM H tw N r X Y)
     (h : N ≤ N') : EntryM H tw N' r X Y :=
-  { e with bdX := e.bdX.mono h, plX := e.plX.mono h, idb := idBound3_mono e.idb h }
+  { e with bdX := e.bdX.mono h, plX := e.plX.mono h, idb := idBound3_mono e.idb h,
+           pb := by have := e.pb; omega }
 
 theorem ChainM.mono {H : Home} {tw : Ticket → Bool} {N N' : Int} (h : N ≤ N') :
     ∀ {rs : List UOp} {Y : Doc} {past : List Doc}, ChainM H tw N rs Y past → ChainM H tw N' rs Y past
@@ -136,6 +137,17 @@ theorem ChainM.idb {H : Home} {tw : Ticket → Bool} {N : Int} :
     rcases hx with rfl | hx
     · exact e.idb
     · exact ChainM.idb c x hx
+
+theorem ChainM.pb {H : Home} {tw : Ticket → Bool} {N : Int} :
+    ∀ {rs : List UOp} {Y : Doc} {past : List Doc}, ChainM H tw N rs Y past → ∀ r ∈ rs, r.par.lamport ≤ N
+  | [], _, _, _ => fun _ h => by simp at h
+  | _ :: _, _, [], c => c.elim
+  | r :: rs, _, _ :: _, ⟨e, c⟩ => by
+    intro x hx
+    simp only [List.mem_cons] at hx
+    rcases hx with rfl | hx
+    · exact e.pb
+    · exact ChainM.pb c x hx
 
 theorem GoodOp3.update {H : Home} {tw : Ticket → Bool} {d : Doc} {N : Int} {r : UOp} (g : GoodOp3 H tw d r)
     (hi : idBound3 r N) {ts : Ticket} (hts : N < ts.lamport) (p : Ticket) (k : String) :
@@ -207,14 +219,14 @@ theorem Inv3.arr {H : Home} {N : Int} {ρ : Ticket → Ticket} {g : Hist} {ru rr
     (hp : absNode cur p = some (.arr l)) :
     ρ p = p ∧ p.lamport ≤ N ∧ l.Nodup ∧ headId ∉ l ∧ (∀ c ∈ l, c.lamport ≤ N) ∧
     absNode g.doc p = some (.arr (l.map ρ)) ∧
-    (orphaned cur g.tw orphanFuel p = false → orphaned g.doc g.tw orphanFuel p = false) := by
+    (orphaned cur noTw orphanFuel p = false → orphaned g.doc noTw orphanFuel p = false) := by
   have hρp : ρ p = p := i.rfix p (by rw [skel_of_arr hp]; simp)
   have hpN : p.lamport ≤ N := absNode_some_bound i.bdc (by rw [hp]; simp)
   obtain ⟨hn, hh, hb⟩ := absNode_arr_plain i.plc hp
   refine ⟨hρp, hpN, hn, hh, hb, ?_, ?_⟩
   · have := i.sim.node p hpN; rw [hρp, hp] at this; exact this
   · intro ho
-    rw [← orphaned_of_skel i.wfc i.wf (fun t => (i.eskel t).symm) g.tw _ _ (absNode_isContainer_arr hp)]
+    rw [← orphaned_of_skel i.wfc i.wf (fun t => (i.eskel t).symm) noTw _ _ (absNode_isContainer_arr hp)]
     exact ho
 
 end Yorkie.Undo
